@@ -140,6 +140,11 @@ impl Caret {
             let i = self.pos.x as usize;
             if i < line.chars.len() {
                 line.chars.insert(i, AttributedChar::new(' ', self.attribute));
+                // the character pushed over the right edge is lost, the line does not grow beyond the screen
+                let width = buf.terminal_state.get_width().max(0) as usize;
+                if line.chars.len() > width {
+                    line.chars.truncate(width);
+                }
             }
         }
     }
@@ -455,6 +460,12 @@ impl Buffer {
         if let Some((_, end)) = self.terminal_state.get_margins_top_bottom() {
             if (0..self.layers[layer].get_line_count()).contains(&end) {
                 self.layers[layer].lines.remove(end as usize);
+            }
+        } else if self.is_terminal_buffer {
+            // without margins the region is the screen: the line pushed over its bottom edge is lost, it is not kept below the screen
+            let last = self.get_first_visible_line() + self.terminal_state.get_height() - 1;
+            if line <= last && (0..self.layers[layer].get_line_count()).contains(&last) {
+                self.layers[layer].lines.remove(last as usize);
             }
         }
         let buffer_width = self.layers[layer].get_width();
